@@ -61,3 +61,30 @@ Proof.
         (conj (gen_lift_model S x w) (conj (gen_one_model S) (gen_zero_model S))))))))).
 Qed.
 Print Assumptions C12_code_is_model.
+
+(* Kleene star and construction from a string (proofs/StarStringProofs.v).  Union also holds for the epsilon-aware
+   path semantics at every fuel, operands with epsilon arcs included; star(A)(x) = [x is empty] + A+(x), where A+ is
+   the sum over all factorisations of x into non-empty factors of the product of A on the factors (kplus); the
+   automaton built from a string xs (hand-written model of WFSA.from_string: one state per prefix) gives xs the
+   weight w and every other string zero. *)
+From GV.proofs Require StarStringProofs.
+Theorem C12_union_with_epsilon : forall (S : SR) (a b : wfsa S) (fuel : nat) (xs : list nat),
+  pathsum_e (wunion a b) fuel xs = sadd (pathsum_e a fuel xs) (pathsum_e b fuel xs).
+Proof. intros S a b fuel xs. exact (StarStringProofs.union_pathsum_e S a b fuel xs). Qed.
+Print Assumptions C12_union_with_epsilon.
+
+Theorem C12_star : forall (S : SR) (a : wfsa S) (xs : list nat),
+  (forall ar, In ar (warcs a) -> albl ar <> None) ->
+  (forall i f, In i (winit a) -> In f (wfinal a) -> fst i <> fst f) ->
+  forall fuel, 2 * length xs < fuel ->
+  pathsum_e (wstar a) fuel xs = sadd (match xs with [] => s1 | _ => s0 end) (kplus a (length xs) xs).
+Proof. intros S a xs H1 H2 fuel Hf. exact (StarStringProofs.star_unfold S a xs H1 H2 fuel Hf). Qed.
+Print Assumptions C12_star.
+
+Theorem C12_from_string : forall (S : SR) (xs : list nat) (w : S) (ys : list nat),
+  weight (StarStringProofs.from_string xs w) ys = (if list_eqb Nat.eqb ys xs then w else s0) /\
+  pathsum (StarStringProofs.from_string xs w) ys = (if list_eqb Nat.eqb ys xs then w else s0).
+Proof.
+  intros S xs w ys. split; [exact (StarStringProofs.from_string_weight_call S xs w ys)|exact (StarStringProofs.from_string_weight S xs w ys)].
+Qed.
+Print Assumptions C12_from_string.
